@@ -139,5 +139,5 @@ META = {
             "resulting operator additionally needs the one-site decomposition (C01) and is not decided numerically.",
     "note": "Symbolic trees are a finite set of shapes chosen to cover every branch of the code (leaf / inner / root, first / middle / last child, 1-3 basis sets); "
             "the code under analysis branches only on these shape attributes.",
-    "design_ref": "DESIGN.md 3.3, 4 (C02)",
+    "design_ref": "DESIGN.md 3.3, 4 (C02); as built: 9.1, 9.3, 9.8",
 }
